@@ -116,7 +116,10 @@ var vGzips = map[*readers.GZipCompressReader]*vGzip{}
 
 var vGzipOut []byte
 
+var vGzipCalls int
+
 func vNewGzip(r io.Reader) *readers.GZipCompressReader {
+	vGzipCalls++
 	g := &readers.GZipCompressReader{}
 	vGzipOut = verifBytes("gzipOutput", vGzipLen)
 	vGzips[g] = &vGzip{in: r, out: vGzipOut}
@@ -272,9 +275,18 @@ func vForward(requestSide bool) {
 	if !requestSide {
 		status = int(verifInt("resp.status", 200, 599))
 	}
-	vNSends = 0
+	// the backend may label its body with a content coding of its own
+	backendCE := ""
+	if !requestSide {
+		codings := []string{"", "gzip", "br", "deflate, gzip", "GZIP", "x-gzip"}
+		backendCE = codings[verifChoose("resp.contentEncoding", verifBound("contentCodings"))]
+	}
+	vNSends, vGzipCalls = 0, 0
 	vOutcome = func(int) (*http.Response, error) {
 		h := http.Header{"X-Backend": []string{"b"}}
+		if backendCE != "" {
+			h.Set("Content-Encoding", backendCE)
+		}
 		cl := declared
 		if chunked {
 			cl = -1
@@ -327,7 +339,16 @@ func vForward(requestSide bool) {
 	}
 	resp, _ := ctx.GetOutputResponse().(*httpprot.Response)
 	verifAssert(resp != nil, "a-response-is-always-set")
-	compressed := compress && (chunked || declared >= int64(sp.proxy.compression.spec.MinLength))
+	// whether the proxy compresses is observed (the compressor was created); for a body without
+	// a coding of its own the decision is the documented one
+	compressed := vGzipCalls > 0
+	verifAssert(vGzipCalls <= 1, "compressed-at-most-once")
+	if backendCE == "" {
+		verifAssert(compressed == (compress && (chunked || declared >= int64(sp.proxy.compression.spec.MinLength))), "compression-decision")
+	}
+	if !compress {
+		verifAssert(!compressed, "no-compression-unless-configured")
+	}
 	bodyLen := int64(m)
 	if compressed {
 		bodyLen = int64(vGzipLen)
@@ -342,12 +363,29 @@ func vForward(requestSide bool) {
 	verifAssert(resp.StatusCode() == status, "client-gets-backend-status")
 	verifAssert(resp.HTTPHeader().Get("X-Backend") == "b", "client-gets-backend-headers")
 	got, _ := io.ReadAll(resp.GetPayload())
+	// the codings the client is told to undo: the backend's own, plus gzip last iff the proxy
+	// compressed - undoing them in reverse order must give back the backend's content
+	gotCE := ""
+	for i, v := range resp.HTTPHeader().Values("Content-Encoding") {
+		if i > 0 {
+			gotCE += ", "
+		}
+		gotCE += v
+	}
 	if compressed {
-		verifAssert(resp.HTTPHeader().Get("Content-Encoding") == "gzip", "compressed-response-labelled")
+		wantCE := "gzip"
+		if backendCE != "" {
+			wantCE = backendCE + ", gzip"
+		}
+		verifAssert(gotCE == wantCE, "compressed-response-labelled-with-every-coding-applied")
 		verifAssert(vBytesEq(got, vGzipOut), "client-gets-the-whole-compressed-stream")
 		verifCover("compressed")
 	} else {
+		verifAssert(gotCE == backendCE, "backend-content-coding-label-kept")
 		verifAssert(vBytesEq(got, respBody.data), "client-gets-backend-body")
+		if backendCE != "" {
+			verifCover("backend-coded-body-passed-through")
+		}
 	}
 	if cl := resp.HTTPHeader().Get("Content-Length"); cl != "" {
 		verifAssert(cl == strconv.Itoa(len(got)), "declared-content-length-equals-body-bytes")
